@@ -262,6 +262,12 @@ def discharge(eng, o, usize_bits=64):
                     return True
         o.status, o.why = False, "CtOption unwrapped without an established validity (value %s)" % show(v, 3)
         return False
+    elif kind == "nonzero":
+        v = g[1]
+        if v.op == "int":
+            o.status, o.why = (v.args[0] != 0), "constant operand"
+            return o.status
+        goals = [lin.Lin(1).add(L.lin(v), -1)]
     elif kind == "const0":
         o.status, o.why = False, "Strobe `more` flag is not the constant false"
         return False
@@ -280,23 +286,45 @@ def discharge(eng, o, usize_bits=64):
     # INV-UNIFORM
     if kind == "lt" and _inv_uniform(eng, o, g[1], g[2]):
         return True
-    # INV-PAIRED: |vector| == |set| when the vector is pushed exactly once per successful set insertion
-    if kind == "range":
-        extra = _inv_paired(eng, facts, [g[2], g[3]])
+    # INV-PAIRED: |vector| >= |set| when every successful set insertion is followed by a push (same loop, both empty before)
+    if kind in ("range", "ovf", "lt", "le"):
+        extra = _inv_paired(eng, facts, [x for x in g[1:] if is_t(x)])
         if extra:
             L3 = make_ctx(eng, facts, usize_bits)
             for (va, ka) in extra:
-                L3.eqs.append(L3.lin(va).add(L3.lin(ka), -1))
-            goals3 = [_goal_le(L3, g[1], g[2]), _goal_le(L3, g[2], g[3])]
-            if all(lin.entails(L3, gl) for gl in goals3):
+                L3.side.append(L3.lin(ka).add(L3.lin(va), -1))      # |K| <= |V|
+            # rebuild the same goals in the extended context
+            o2 = Ob.__new__(Ob)
+            goals3 = _goals_for(L3, g, usize_bits)
+            if goals3 is not None and all(lin.entails(L3, gl) for gl in goals3):
                 o.status = True
-                o.why = ("INV-PAIRED: the indexed vector receives exactly one push per successful insertion into the distinctness set "
-                         "(same loop, both start empty), so their lengths are equal; then entailed by the count guard")
+                o.why = ("INV-PAIRED: every successful insertion into the distinctness set is followed by a push into the indexed "
+                         "vector (same loop, both start empty), so the vector is at least as long as the set; then entailed by the count guard")
                 return True
     o.status = False
     o.why = "cannot establish %s (goal %s) from dominating facts %s" % (
         o.desc, [show(x, 3) for x in g[1:] if is_t(x)], sorted(Q.show_fact(f, 2)[:70] for f in facts if f[0].op in ("lt", "le", "eq", "ge", "gt", "range_ok", "no_ovf"))[:6])
     return False
+
+
+def _goals_for(L, g, usize_bits):
+    kind = g[0]
+    if kind == "range":
+        return [_goal_le(L, g[1], g[2]), _goal_le(L, g[2], g[3])]
+    if kind == "lt":
+        return [_goal_le(L, g[1], g[2], strict=True)]
+    if kind == "le":
+        return [_goal_le(L, g[1], g[2])]
+    if kind == "ovf":
+        _, op, a, b, ty = g
+        r = int_range(ty, usize_bits)
+        if r is None or a is None or b is None:
+            return None
+        if op == "add":
+            return [L.lin(a).add(L.lin(b)).add(lin.Lin(r[1]), -1), lin.Lin(r[0]).add(L.lin(a).add(L.lin(b)), -1)]
+        if op == "sub":
+            return [lin.Lin(r[0]).add(L.lin(a).add(L.lin(b), -1), -1), L.lin(a).add(L.lin(b), -1).add(lin.Lin(r[1]), -1)]
+    return None
 
 
 def _alt_facts(eng, alt):
@@ -388,6 +416,10 @@ def _inv_uniform(eng, o, idx, ln):
     coll_a, coll_b = ca.args[0], cb.args[0]
     base_a = coll_a.args[0] if coll_a.op == "slice" else coll_a
     base_b = coll_b.args[0] if coll_b.op == "slice" else coll_b
+    while base_a.op == "subset":
+        base_a = base_a.args[0]
+    while base_b.op == "subset":
+        base_b = base_b.args[0]
     if base_a is not base_b or base_a.op != "phi":
         return False
     # the collection is a vector accumulated by pushes in some frame: find the push sites
@@ -507,11 +539,12 @@ def _paired(eng, V, K):
                         out.append(e)
         return out
     mv, mk_ = mut_users(locv), mut_users(lock)
-    if len(mv) != 1 or len(mk_) != 1:
+    if len(mk_) != 1 or not mv:
         return False
-    push, ins = mv[0], mk_[0]
-    if not (push.get("callee") or "").endswith("::push") or "BTreeSet" not in (ins.get("callee") or "") or not ins["callee"].endswith("::insert"):
-        return False
+    ins = mk_[0]
+    pushes = [e for e in mv if (e.get("callee") or "").endswith("::push")]
+    if len(pushes) != len(mv) or "BTreeSet" not in (ins.get("callee") or "") or not ins["callee"].endswith("::insert"):
+        return False      # the vector is only ever pushed to (never shrunk) inside the loop
     # direct assignments to the two locals inside the loop are not allowed
     for bi in cfg.reachable_from(head):
         if head not in cfg.reachable_from(bi):
@@ -520,9 +553,6 @@ def _paired(eng, V, K):
             if st.get("l") and st["l"][0] in (locv[1], lock[1]) and not st["l"][1]:
                 return False
     res = ins["result"]
-    fs = Q.closure(eng, eng.block_facts.get((fkey, push["block"]), frozenset()))
-    if not any(t is res and rel == "eq" and v == 1 for t, rel, v in fs):
-        return False
     # every path from the `inserted == true` edge back to the loop head passes through the push
     sw = None
     for b in cfg.rpo:
@@ -530,15 +560,20 @@ def _paired(eng, V, K):
         if st_ is not None and st_[0] is res:
             sw = (b, st_)
     if sw is None:
-        return False
-    b, (d, targets, otherwise) = sw
-    true_succ = otherwise if all(int(v) == 0 for v, _ in targets) else None
-    for v, tb in targets:
-        if int(v) == 1:
-            true_succ = tb
-    if true_succ is None:
-        return False
-    reach = cfg.reachable_from(true_succ, avoid=(push["block"],))
+        # the result of insert is not tested: the push must follow on every path from the insertion to the loop head
+        t_ = fr.fn.blocks[ins["block"]]["t"]
+        true_succ = t_.get("target")
+        if true_succ is None or true_succ < 0:
+            return False
+    else:
+        b, (d, targets, otherwise) = sw
+        true_succ = otherwise if all(int(v) == 0 for v, _ in targets) else None
+        for v, tb in targets:
+            if int(v) == 1:
+                true_succ = tb
+        if true_succ is None:
+            return False
+    reach = cfg.reachable_from(true_succ, avoid=tuple(e["block"] for e in pushes))
     if head in reach:
         return False
     return True
